@@ -1,5 +1,6 @@
 import Cardutil.Lemmas.Pin
 import Cardutil.Lemmas.Des
+import Cardutil.Lemmas.Aes
 /-
   C13 — PIN blocks follow ISO 9564 formats 0 and 4 and return the PIN, for 4–12 digits.
 
@@ -177,14 +178,9 @@ theorem C13_tdes_iso0 (key : Bytes) (hk : key.length = 8 ∨ key.length = 16 ∨
     · simp at h
   exact ⟨blk, ct, h0, hct, by omega, Des.tdesEcb_dec_enc key blk ct hbytes hct, hback⟩
 
-/-- … and format 4 under the Triple DES mix-in (two ECB blocks) -/
-theorem C13_tdes_iso4 (key : Bytes) (hk : key.length = 8 ∨ key.length = 16 ∨ key.length = 24)
-    (pin : Text) (rnd : Nat) (hpin : AllDigits pin) (hl4 : 4 ≤ pin.length) (hl12 : pin.length ≤ 12) (hr : rnd < 2 ^ 64) :
-    ∃ blk ct, iso4ToBytes pin rnd = .ok blk ∧ Des.tdesEcb false key blk = .ok ct ∧ ct.length = 16 ∧
-      Des.tdesEcb true key ct = .ok blk ∧ iso4FromBytes blk = .ok pin := by
-  obtain ⟨blk, h4, hlen, hnib, hback⟩ := C13_iso4 pin rnd hpin hl4 hl12 hr
-  obtain ⟨ct, hct, hctl⟩ := tdes_encrypts key blk hk (by omega)
-  have hbytes : Des.IsBytes blk := by
+/-- the bytes of a format-4 block are bytes -/
+theorem iso4ToBytes_bytes (pin : Text) (rnd : Nat) (blk : Bytes) (h4 : iso4ToBytes pin rnd = .ok blk) :
+    Des.IsBytes blk := by
     have h := h4
     unfold iso4ToBytes unhexlify at h
     split at h
@@ -224,7 +220,50 @@ theorem C13_tdes_iso4 (key : Bytes) (hk : key.length = 8 ∨ key.length = 16 ∨
         exact this _ ns hp n hn
       · simp at h
     · simp at h
+
+/-- … and format 4 under the Triple DES mix-in (two ECB blocks) -/
+theorem C13_tdes_iso4 (key : Bytes) (hk : key.length = 8 ∨ key.length = 16 ∨ key.length = 24)
+    (pin : Text) (rnd : Nat) (hpin : AllDigits pin) (hl4 : 4 ≤ pin.length) (hl12 : pin.length ≤ 12) (hr : rnd < 2 ^ 64) :
+    ∃ blk ct, iso4ToBytes pin rnd = .ok blk ∧ Des.tdesEcb false key blk = .ok ct ∧ ct.length = 16 ∧
+      Des.tdesEcb true key ct = .ok blk ∧ iso4FromBytes blk = .ok pin := by
+  obtain ⟨blk, h4, hlen, hnib, hback⟩ := C13_iso4 pin rnd hpin hl4 hl12 hr
+  obtain ⟨ct, hct, hctl⟩ := tdes_encrypts key blk hk (by omega)
+  have hbytes : Des.IsBytes blk := iso4ToBytes_bytes pin rnd blk h4
   exact ⟨blk, ct, h4, hct, by omega, Des.tdesEcb_dec_enc key blk ct hbytes hct, hback⟩
+
+/-! ### AES itself (the cipher of `AESEncryptedPinBlockMixin`), not a hypothesis -/
+
+theorem splitKeys_some (rks : List (List Nat)) (h : 2 ≤ rks.length) : ∃ k, Aes.splitKeys rks = some k := by
+  match rks, h with
+  | k0 :: k1 :: rest, _ =>
+    simp only [Aes.splitKeys]
+    cases hr : (k1 :: rest).reverse with
+    | nil => simp at hr
+    | cons kl revMids => exact ⟨_, rfl⟩
+
+theorem aes_encrypts (key x : Bytes) (hk : key.length = 16 ∨ key.length = 24 ∨ key.length = 32) :
+    ∃ c, Aes.encryptBlock key x = some c := by
+  unfold Aes.encryptBlock Aes.roundKeys
+  rw [if_pos hk]
+  simp only [Option.bind_some]
+  obtain ⟨k, hs⟩ := splitKeys_some ((List.range (key.length / 4 + 7)).map
+    (fun r => (((Aes.expandGo (key.length / 4) (4 * (key.length / 4 + 7) - key.length / 4) (Aes.words key)).drop (4 * r)).take 4).flatten))
+    (by simp)
+  rw [hs]
+  exact ⟨_, rfl⟩
+
+/-- C13, AES form: for every 128-, 192- or 256-bit key, the format-4 block of every PIN of 4..12 digits is encrypted
+    by the AES of Model/Aes.lean to a 16-byte block that the inverse cipher turns back into the clear block, from which
+    the PIN is read back.  No property of the cipher is assumed: `invCipher_cipher` is proved. -/
+theorem C13_aes_iso4 (key : Bytes) (hk : key.length = 16 ∨ key.length = 24 ∨ key.length = 32)
+    (pin : Text) (rnd : Nat) (hpin : AllDigits pin) (hl4 : 4 ≤ pin.length) (hl12 : pin.length ≤ 12) (hr : rnd < 2 ^ 64) :
+    ∃ blk ct, iso4ToBytes pin rnd = .ok blk ∧ Aes.encryptBlock key blk = some ct ∧ ct.length = 16 ∧
+      Aes.decryptBlock key ct = some blk ∧ iso4FromBytes blk = .ok pin := by
+  obtain ⟨blk, h4, hlen, _, hback⟩ := C13_iso4 pin rnd hpin hl4 hl12 hr
+  obtain ⟨ct, hct⟩ := aes_encrypts key blk hk
+  have hst : Aes.IsState blk := ⟨hlen, iso4ToBytes_bytes pin rnd blk h4⟩
+  obtain ⟨hdec, hcs⟩ := Aes.decryptBlock_encryptBlock key blk ct hst hct
+  exact ⟨blk, ct, h4, hct, hcs.1, hdec, hback⟩
 
 /-- non-vacuity and a known answer (module documentation): PIN 1234, PAN 1111222233334444 -/
 example : AllDigits [49, 50, 51, 52] ∧ 4 ≤ [49, 50, 51, 52].length ∧ [49, 50, 51, 52].length ≤ 12 := by
